@@ -32,6 +32,9 @@ Definition ex_doc : dtext :=
 Example ex_doc_render : drender ex_doc = normalize ex_def (Some (S "bar")).
 Proof. vm_compute. reflexivity. Qed.
 
+Example ex_doc_wf : wf_dtextb ex_doc (S "bar") (3, 4, 7) = true.
+Proof. vm_compute. reflexivity. Qed.
+
 Example ex_doc_set :
   string_of_list_ascii (set_doc_src (drender ex_doc) (dpos_of ex_doc) (S "New ""doc"".") false (S "bar") (3, 4, 7))
   = jn ["# lead"; ""; "def bar(x, y=1):  # def g():"; "    """"""New ""doc""."""""""; ""; "    return (x +"; "  y)"; "    # last"; ""].
